@@ -17,7 +17,7 @@ class C04(Prop):
             "sequential, reverse); key-log lines of all connections shuffled; oracle: per-flow packet sequences (bytes and "
             "timestamps) of the mixed export == those of the N solo exports (same packets, others removed); non-trivial = "
             ">= 2 connections actually interleave at the tap; distinct = distinct interleaving signatures")
-    reach = ["same_hosts_diff_client_port", "same_client_port_diff_server", "same_server_diff_clients", "crossed_pair_same_ports", "v4_v6_mixed",
+    reach = ["same_hosts_diff_client_port", "same_client_port_diff_server", "same_server_diff_clients", "crossed_pair_same_ports", "equal_initial_sequence_numbers", "v4_v6_mixed",
              "tls_quic_mixed", "quic_zero_len_cid", "noise", "n_ge_4", "policy_bursty", "policy_sequential"]
 
     def plan(self, tier):
@@ -71,6 +71,13 @@ class C04(Prop):
                 c = gen.gen_tls_conn(R.fork("conn-alt", j), j, cfg, used)
                 mode = None
             c["collide"] = mode
+            if conns and c["proto"] == "tls" and E.chance(25):
+                # equal initial sequence numbers in two connections (duplicate suppression is per connection)
+                o2 = [x for x in conns if x["proto"] == "tls"]
+                if o2:
+                    o2 = E.choice(o2)
+                    c["tcp"]["isn_c"], c["tcp"]["isn_s"] = o2["tcp"]["isn_c"], o2["tcp"]["isn_s"]
+                    c["same_isn"] = True
             conns.append(c)
         # one MAC per IP address
         macs = {}
@@ -166,6 +173,8 @@ class C04(Prop):
                 out.count("reach:same_server_diff_clients")
             elif c.get("collide") == "crossed":
                 out.count("reach:crossed_pair_same_ports")
+            if c.get("same_isn"):
+                out.count("reach:equal_initial_sequence_numbers")
             if c["proto"] == "quic" and (c.get("q", {}).get("scid_c_len") == 0 or c.get("q", {}).get("scid_s_len") == 0):
                 out.count("reach:quic_zero_len_cid")
         if len(set(c["v6"] for c in conns)) > 1:
